@@ -121,6 +121,7 @@ def rand_cfg(rng: random.Random, gen: ModelGen, ent, multiclient: Optional[bool]
         'suffix': rng.choice(['Shell', 'AdvShell', '_adv', 'X1']),
         'provides': provides, 'requires': requires, 'multiclient': mc,
         'origin': rng.choice(['create', 'import']),
+        'verbose': rng.random() < 0.25,
         'copyright': rng.choice(COPYRIGHTS) if hostile_text else 'Copyright (c) test',
         'creator': rng.choice([None, 'me', 'tool v1\nline 2'] + (COPYRIGHTS if hostile_text else [])),
         # never generated as model names; 'Dzn' is the identifier the library itself appends
